@@ -32,6 +32,7 @@ def show(t):
     k = t[0]
     if k == 'var': return '(var %s)' % name(t[1])
     if k == 'int': return '(int %d)' % t[1]
+    if k == 'char': return '(char %d)' % t[1]
     if k == 'bin': return '(bin %s %s %s)' % (t[1], show(t[2]), show(t[3]))
     if k == 'un': return '(un %s %s)' % (t[1], show(t[2]))
     if k == 'is': return '(is %s %s)' % (show(t[1]), t[2])
@@ -44,7 +45,7 @@ def show(t):
 
 def level(t):
     k = t[0]
-    if k in ('var', 'int', 'call', 'len', 'index'): return 1
+    if k in ('var', 'int', 'char', 'call', 'len', 'index'): return 1
     if k == 'un': return 2
     if k == 'is': return 3
     if k == 'bin': return {v[0]: v[1] for v in BIN.values()}[t[1]]
@@ -122,6 +123,19 @@ def run(ctx):
             cases.append(('a %s %s b %s c' % (o1, u, o2), show(climb([operands[0], o1, ('un', UN[u], operands[1]), o2, operands[2]]))))
         cases.append(('a is int %s b %s c[0]' % (o1, o2), show(climb([('is', operands[0], 'int'), o1, operands[1], o2, ('index', operands[2], ('int', 0))]))))
         cases.append(('- a.length %s b %s c' % (o1, o2), show(climb([('un', 'Neg', ('len', operands[0])), o1, operands[1], o2, operands[2]]))))
+    # the same chains with every mix of operand kinds (a parser may special-case literal operands): for each pair of operators,
+    # each of the 27 assignments of {variable, int literal, char literal} to the three operands
+    kinds = [lambda n: ('var', n), lambda n: ('int', {'a': 1, 'b': 2, 'c': 5}[n]), lambda n: ('char', {'a': 97, 'b': 48, 'c': 1}[n])]
+    spell = [lambda n: n, lambda n: str({'a': 1, 'b': 2, 'c': 5}[n]), lambda n: {'a': "'a'", 'b': "'0'", 'c': "'\\x01'"}[n]]
+    pairs2 = list(itertools.product(ops, repeat=2))
+    if ctx.quick: pairs2 = [(o, o) for o in ops] + ctx.rng.sample(pairs2, 60)
+    for o1, o2 in pairs2:
+        for ka, kb, kc in itertools.product(range(3), repeat=3):
+            if ka == kb == kc == 0: continue
+            A, B, C = kinds[ka]('a'), kinds[kb]('b'), kinds[kc]('c')
+            cases.append(('%s %s %s %s %s' % (spell[ka]('a'), o1, spell[kb]('b'), o2, spell[kc]('c')), show(climb([A, o1, B, o2, C]))))
+            if ka == 0 and (kb, kc) != (0, 0):
+                cases.append(('(%s %s %s) %s %s' % (spell[ka]('a'), o1, spell[kb]('b'), o2, spell[kc]('c')), show(('bin', BIN[o2][0], ('bin', BIN[o1][0], A, B), C))))
     triples = list(itertools.product(ops, repeat=3))
     if ctx.quick: triples = ctx.rng.sample(triples, 700)
     for o1, o2, o3 in triples:
